@@ -246,7 +246,7 @@ func ruleC05(c *Check) {
 			}
 			switch e.Op {
 			case "SendCoinsFromAccountToModule":
-				c.req(e.From.String() == S, "C05.7", effConstruct(en.Msg, e), e.Pos, "payer "+shortTerm(e.From)+" is the signer "+en.Signer)
+				c.req(e.From.String() == S || equalsFact(c.closeFacts(e.Guards), S, e.From.String()), "C05.7", effConstruct(en.Msg, e), e.Pos, "payer "+shortTerm(e.From)+" is the signer "+en.Signer)
 			case "SendCoinsFromModuleToAccount", "SendCoinsFromModuleToModule", "BurnCoins":
 				// lowers only module accounts
 				c.req(isConstTerm(e.From), "C05.7", effConstruct(en.Msg, e), e.Pos, "debits module account "+shortTerm(e.From))
